@@ -1249,6 +1249,12 @@ func (mgr *Manager) UpdateTag(name string, operation UpdateTagOperation) error {
 				if mgr.tagReferencesTransitively(newTag, name) {
 					return errors.New("reference cycle not allowed in tags")
 				}
+				// the attached converters have to stay attachable (they would be dropped at the next start)
+				if len(tag.converters) != 0 {
+					if err := converterAttachable(newTag, name); err != nil {
+						return err
+					}
+				}
 			}
 			if info.color != "" {
 				tag.color = info.color
